@@ -123,6 +123,11 @@ func (r *validationResponseHandler) HandleValidationResponse(
 					ctx.Stored.Data.Header.Del(field)
 				}
 			}
+			if resp != nil && resp.Body != nil {
+				// The error reply is dropped in favour of the stored response:
+				// give its connection back to the upstream transport.
+				_ = resp.Body.Close()
+			}
 			SetAgeHeader(ctx.Stored.Data, r.clock, ctx.Freshness.Age)
 			CacheStatusStale.ApplyTo(ctx.Stored.Data.Header)
 			r.l.LogCacheStaleIfError(req, ctx.URLKey, ctx.ToMisc(ccStored))
